@@ -42,12 +42,18 @@ class Axis:
 
         # will be added as blocks are added to mesh
         self.neighbours: Set[Axis] = set()
+        # the same axes in the order they were added; iteration over a set of objects
+        # depends on memory addresses and would make grading differ from run to run
+        self.ordered_neighbours: List[Axis] = []
 
     def add_neighbour(self, axis: "Axis") -> None:
         """Adds an 'axis' from another block if it shares at least one wire"""
         for this_wire in self.wires:
             for nei_wire in axis.wires:
                 if this_wire.is_coincident(nei_wire):
+                    if axis not in self.neighbours:
+                        self.ordered_neighbours.append(axis)
+
                     self.neighbours.add(axis)
 
     def is_aligned(self, other: "Axis") -> bool:
@@ -81,7 +87,7 @@ class Axis:
             # no need to change anything
             return False
 
-        for neighbour in self.neighbours:
+        for neighbour in self.ordered_neighbours:
             # a neighbour can be defined by gradings copied from coincident wires alone, with no chops to pass on
             if neighbour.is_defined and len(neighbour.wires.chops) > 0:
                 if neighbour.is_aligned(self):
